@@ -1130,11 +1130,24 @@ impl Runner {
                         step, op.short(), m.name, r, v1, v2, lo, up, m.name, m.imports
                     )
                 };
+                // the same over the declarations that exist NOW (what the manager shows): a re-export
+                // configuration that went away with its declaration explains nothing
+                let reexport_pattern_at_source_now = || {
+                    m.imports.iter().any(|d| {
+                        matches!(d.ty.as_str(), "AllRules" | "Rules" | "All")
+                            && pm(&d.pat, r)
+                            && snap.mods.iter().find(|x| x.name == d.from).map_or(false, |src| {
+                                src.imports.iter().any(|sd| sd.re.as_ref().map_or(false, |(pats, _)| pats.iter().any(|p| pm(p, r))))
+                            })
+                    })
+                };
                 let mut reported = false;
                 for (f, v) in [("is_rule_visible", v1), ("get_visible_rules", v2)] {
                     if v == Some(true) && !up {
-                        let cause = if reexport_pattern_at_source() {
+                        let cause = if reexport_pattern_at_source_now() {
                             "re-export-pattern-matches-rule-not-visible-to-re-exporter"
+                        } else if reexport_pattern_at_source() {
+                            "re-export-pattern-of-a-declaration-that-no-longer-exists"
                         } else {
                             "unexplained"
                         };
@@ -1161,7 +1174,15 @@ impl Runner {
                 }
                 if let (Some(a), Some(c), false) = (v1, v2, reported) {
                     if a != c {
-                        let cause = if a && !c && !b.plain[i][j] {
+                        // "plain" over the declarations the module really has now (a declaration
+                        // that died with its source does not make the rule plainly visible)
+                        let plain_now = b.owned[i][j]
+                            || m.imports.iter().any(|d| {
+                                matches!(d.ty.as_str(), "AllRules" | "Rules" | "All")
+                                    && pm(&d.pat, r)
+                                    && self.model.mods.get(&d.from).map_or(false, |src| src.rules.contains(r) && admits_rule(&src.exports, r))
+                            });
+                        let cause = if a && !c && (!b.plain[i][j] || !plain_now) {
                             "rule-reaches-module-only-via-re-export"
                         } else {
                             "unexplained"
@@ -1455,6 +1476,21 @@ fn preambles() -> Vec<(&'static str, Vec<Op>)> {
     vec![("empty", vec![]), ("populated", populated), ("chained", chained)]
 }
 
+/// Further starting points of the random part only: a re-export in the middle of a chain, so that
+/// deleting / re-creating the source of the re-export, or importing around it, happens within a
+/// few random operations.
+fn random_only_preambles() -> Vec<Vec<Op>> {
+    let base = preambles()[1].1.clone();
+    let mut re_chain = base.clone();
+    re_chain.push(imp_re("B", "A", Ty::AllRules, "*", &["a-*"], true));
+    re_chain.push(imp("C", "B", Ty::AllRules, "*"));
+    let mut re_main = base.clone();
+    re_main.push(imp_re("B", "A", Ty::Rules, "a-*", &["*"], false));
+    re_main.push(imp_re("B", "C", Ty::AllRules, "*", &["b-*"], false));
+    re_main.push(imp("MAIN", "B", Ty::AllRules, "*"));
+    vec![re_chain, re_main]
+}
+
 const PATTERNS: [&str; 7] = ["*", "a-*", "*-x", "b-*", "a-x", "a-y", "b-x"];
 
 fn pick_s(rng: &mut Rng, xs: &[&str]) -> String {
@@ -1697,6 +1733,8 @@ impl Check for C18 {
 
         // ---- random part over the full alphabet
         let per = cli.n(120_000, 2_500_000);
+        let extra_pres = random_only_preambles();
+        let extra_pres = &extra_pres;
         shards(cli, nthreads, st, |_shard, rng, st| {
             let mut t = Tally::default();
             let mut rep = Reporter::default();
@@ -1714,6 +1752,9 @@ impl Check for C18 {
                 };
                 let n = if rng.chance(1, 5) { 1 + rng.below(7) } else { 4 + rng.below(4) };
                 let mut ops = pres_ref[pre].1.clone();
+                if deletes && reexports && rng.chance(1, 3) {
+                    ops = rng.pick(&extra_pres).clone();
+                }
                 for pos in 0..n {
                     ops.push(rand_op(rng, deletes, reexports, if pre == 0 { pos } else { 9 }));
                 }
